@@ -1,32 +1,50 @@
-"""C19 chaos layer: generator, oracle plumbing (model_input), independent monitor."""
+"""C19 chaos layer: generator, oracle plumbing (model_input), independent monitor.
+
+The monitor states the PROPERTY only (reproducibility of two equally seeded instances, no inner call on an
+injected error, transparency at both rates 0, failure at error rate 1, injected latency within the configured
+bounds). Which draws are made, in which order, the k/2^53 grid of rand's floats, the listener events and the
+first-poll reading of "order of requests" are pinned by the model-vs-implementation trace comparison
+(`compare`), whose failure without a monitor failure is reported as `no-failing-input-found`."""
+import os
 import struct
 
 PROP = "C19"
 DRIVER = "c19"
 MODEL = "C19"
 MODEL_QUALID = "Model.Chaos.run_script"
-FORMAT = ("script [inj_kind 0=NoErrorInjection 1=CustomErrorFn; error_rate f64 bits; latency_rate f64 bits; "
-          "min_latency us; max_latency us; seed; tail_ms; n; (gap_ms, inner_kind 0 ok/1 err, inner_val)*n] "
-          "(model input = script ++ draw values logged by the implementation) -> "
-          "trace [repro flag of two equally seeded instances driven in lock-step; per request 14 ints: n_log, "
-          "k0, k1, k2 (logged draw kinds 0 error roll/1 latency roll/2 delay, -1 pad), listener events error, "
-          "latency, pass, reported delay ms (-1), inner_called, t_issue, t_inner (-1), res_kind (0 Ok 1 Err -1 "
-          "pending), res_val, t_done (-1); n_draws; draw values]")
+FORMAT = ("script [flags: bit0 0=NoErrorInjection 1=CustomErrorFn, bits1-3 builder route (0 error_fn().error_rate(), "
+          "1 error_rate().error_fn(), 2 all setters on ChaosConfigBuilderWithRate, 3 all setters after error_fn, "
+          "4-7 mixed orders / overwritten values); error_rate f64 bits; latency_rate f64 bits; min_latency; max_latency "
+          "(v < 2^64: microseconds, v >= 2^64: v-2^64 nanoseconds); seed; tail_ms; n; (gap_ms, ik: bit0 inner 0 ok/1 err, "
+          "bits1-2 first poll 0 at once/1 deferred past the next polled request/2,3 dropped unpolled, bits3.. ms the inner "
+          "service takes; inner_val)*n] (model input = script ++ draw values logged by the implementation) -> "
+          "trace [repro: bit0 two equally seeded instances driven in lock-step gave equal outcomes, bit1 equal draw logs; "
+          "per request 15 ints: n_log, k0, k1, k2 (logged draw kinds 0 error roll/1 latency roll/2 delay, -1 pad), "
+          "listener events error, latency, pass, reported delay ms (-1), inner_called, t_call, t_poll (-1 never), "
+          "t_inner (-1), res_kind (0 Ok 1 Err -1 pending), res_val, t_done (-1); n_draws; draw values]")
 RULE = ("random configurations: rates from {0, -0, 1, 1/2, 2^-53, 2^-54, subnormal, 1-2^-53, >1, inf, negative, NaN, "
-        "random in [0,1]} x latency bounds in microseconds (min<max, min=max, min>max, same millisecond, zero) x "
-        "random and special seeds x 1..12 overlapping requests with ok/err inner outcomes; the draw stream is the "
-        "implementation's own log (oracle); rates exactly equal to / one ulp around the first roll of the seed; non-trivial = at least one error or latency injected")
+        "random in [0,1]} x latency bounds (min<max, min=max, min>max, same millisecond, zero, sub-millisecond, 40 ms..3 s, "
+        "2^32+-1 ms, 49.7 days, u64::MAX ms, 2^64 ms and more (saturated), Duration::MAX) x 8 builder routes x random and special seeds x 1..12 "
+        "overlapping requests with ok/err/slow inner outcomes, polled at once / deferred (first polls out of call "
+        "order) / dropped unpolled; the draw stream is the implementation's own log (oracle); rates exactly equal to / "
+        "one ulp around the first roll of the seed; non-trivial = at least one error or latency injected")
 TRUSTED = ["verif hook in /repo (feature verif-hooks): log_draw(kind, bits) after each RNG draw in chaos/src/service.rs",
            "gen/c19.py model_input: copies the logged draw values from the implementation trace to the model's oracle"]
 ASSUMPTIONS = ["rand 0.9: Rng::random::<f64>() returns k/2^53 in [0,1) (src/distr/float.rs, multiply-based method) — "
-               "checked by the monitor on every logged roll",
-               "rand 0.9: random_range(lo..=hi) returns a value in [lo, hi] — checked by the monitor on every logged delay",
+               "checked on every logged roll by the correspondence comparison (gen/c19.py compare)",
+               "rand 0.9: random_range(lo..=hi) returns a value in [lo, hi] — checked on every logged delay by the "
+               "correspondence comparison; the property monitor checks the injected latency itself",
                "StdRng::seed_from_u64 is a deterministic function of the seed — checked by the lock-step instance pair",
-               "rates outside [0,1] are clamped by the builder; a NaN rate is outside the property's quantifier (modelled as the code behaves)"]
+               "rates outside [0,1] are clamped by the builder; a NaN rate is outside the property's quantifier (modelled as the code behaves)",
+               "a latency bound of 2^64 ms (584 million years) or more is saturated at u64::MAX ms by the service (fix 37727a1; "
+               "Duration::from_millis cannot express more): '[min_latency, max_latency]' is read with min saturated there "
+               "(theorem C19_latency_within_configured_bounds); such delays are observed through the listener / hook log and "
+               "the pending state, the harness cannot wait for them"]
 
-REC = 14
+REC = 15
 ONE = 0x3FF0000000000000
 HALF = 0x3FE0000000000000
+T64 = 1 << 64
 
 
 def f2b(x):
@@ -37,21 +55,51 @@ def b2f(b):
     return struct.unpack("<d", struct.pack("<Q", b & 0xFFFFFFFFFFFFFFFF))[0]
 
 
+def ms(x):
+    """a Duration of x whole milliseconds in the script's bound encoding"""
+    return x * 1000 if x * 1000 < T64 else T64 + x * 10 ** 6
+
+
 SPECIAL_RATES = [0, 1 << 63, ONE, HALF, f2b(2.0 ** -53), f2b(2.0 ** -54), 1, 0x000FFFFFFFFFFFFF,
                  f2b(1.0 - 2.0 ** -53), f2b(2.0), 0x7FF0000000000000, f2b(-0.25), 0x7FF8000000000000,
                  f2b(0.1), f2b(0.9), f2b(0.25), f2b(0.75)]
 
+# Duration::MAX = u64::MAX s + 999_999_999 ns; its as_millis() is 1000*2^64 - 1, which the u64 cast maps to 2^64 - 1
+DURATION_MAX = T64 + (T64 - 1) * 10 ** 9 + 999999999
 
-def mk(inj, eb, lb, mn, mx, seed, tail, reqs):
-    s = [inj, eb, lb, mn, mx, seed, tail, len(reqs)]
+# Reproducers of the defect fixed in /repo by 37727a1 (found by this check): service.rs computed the bounds with
+# `as_millis() as u64`; for bounds of 2^64 ms or more the cast wrapped and the injected latency was drawn from
+# [min mod 2^64, max mod 2^64] ms, far BELOW min_latency ("injected latency 6 ms outside [2^64+5, 2^64+10]"). The fixed
+# layer saturates both bounds at u64::MAX ms: the delay is u64::MAX ms (seen in the hook log and the listener), the
+# request stays pending. seeded/C19-r3 is the reverse of the fix.
+REPRODUCERS_37727a1 = [
+    # [flags, erate, lrate = 1, min = 2^64+5 ms, max = 2^64+10 ms, seed, tail, n, one request]
+    [0, 0, ONE, T64 + (T64 + 5) * 10 ** 6, T64 + (T64 + 10) * 10 ** 6, 7, 12, 1, 0, 0, 100],
+    # min = 2^64 + 3 ms = max: the unfixed layer injected exactly 3 ms
+    [0, 0, ONE, T64 + (T64 + 3) * 10 ** 6, T64 + (T64 + 3) * 10 ** 6, 7, 5, 1, 0, 0, 100],
+    # only max beyond the u64 edge (fine before and after the fix unless max mod 2^64 < min), and only min beyond it
+    [0, 0, ONE, 20000, T64 + (T64 + 7) * 10 ** 6, 7, 30, 2, 0, 0, 100, 1, 1, 101],
+    [2, 0, ONE, T64 + (T64 + 40) * 10 ** 6, 9000, 7, 50, 2, 0, 0, 100, 1, 1, 101],
+]
+U64_MAX = T64 - 1
+
+
+def mk(flags, eb, lb, mn, mx, seed, tail, reqs):
+    s = [flags, eb, lb, mn, mx, seed, tail, len(reqs)]
     for (g, k, v) in reqs:
         s += [g, k, v]
     return s
 
 
+def ik(kind, mode=0, lat=0):
+    return kind | (mode << 1) | (lat << 3)
+
+
 def corpus():
     r4 = [(0, 0, 100), (1, 1, 101), (0, 0, 102), (3, 0, 103)]
-    return [
+    # first polls out of call order: 0 deferred, 1 at once (then 0), 2 dropped unpolled, 3 deferred, 4 deferred (flushed 4, 3)
+    rp = [(0, ik(0, 1), 100), (1, ik(1, 0), 101), (0, ik(0, 2), 102), (2, ik(0, 1, 2), 103), (1, ik(1, 1), 104)]
+    out = [
         mk(1, HALF, HALF, 2000, 9999, 42, 20, r4),
         mk(1, ONE, HALF, 0, 0, 7, 5, r4),                 # error rate 1
         mk(1, 0, 0, 5000, 1000, 7, 5, r4),                # both rates 0
@@ -61,7 +109,16 @@ def corpus():
         mk(0, 0, ONE, 2100, 2900, 9, 12, r4),             # same millisecond after truncation
         mk(1, 0x7FF8000000000000, ONE, 1000, 4000, 3, 6, r4),  # NaN error rate
         mk(1, f2b(0.3), f2b(0.6), 1000, 30000, 2 ** 64 - 1, 2, r4),  # requests still sleeping at the end
+        mk(1 | (1 << 1), f2b(0.3), f2b(0.6), 1000, 30000, 42, 35, r4),   # error_rate().error_fn()
+        mk(1 | (2 << 1), f2b(0.3), f2b(0.6), 1000, 30000, 42, 35, r4),   # all on ChaosConfigBuilderWithRate
+        mk(1, f2b(0.4), f2b(0.7), 1000, 6000, 11, 10, rp),               # deferred / dropped first polls
+        mk(0, 0, ONE, ms(2 ** 32 - 1), ms(2 ** 32 + 1), 5, 3, r4),       # 49.7-day bounds around the u32 edge
+        mk(0, 0, ONE, ms(10), DURATION_MAX, 5, 3, r4),                   # max_latency = Duration::MAX
+        mk(0, 0, ONE, ms(60), ms(400), 5, 420, r4),                      # bounds above 40 ms, observed in full
+        mk(0, 0, 0, 1000, 2000, 5, 6, [(0, ik(0, 0, 3), 100), (1, ik(1, 0, 9), 101)]),  # slow inner, transparent
     ]
+    out += [list(s) for s in REPRODUCERS_37727a1]
+    return out
 
 
 def rand_rate(rng):
@@ -74,7 +131,7 @@ def rand_rate(rng):
 
 
 def rand_bounds(rng):
-    c = rng.randrange(7)
+    c = rng.randrange(10)
     a = rng.randrange(0, 12000)
     b = rng.randrange(0, 40000)
     if c == 0:
@@ -82,30 +139,68 @@ def rand_bounds(rng):
     if c == 1:
         return max(a, b), min(a, b)       # min >= max
     if c == 2:
-        ms = rng.randrange(0, 10)
-        return ms * 1000 + rng.randrange(1000), ms * 1000 + rng.randrange(1000)  # same ms
+        m = rng.randrange(0, 10)
+        return m * 1000 + rng.randrange(1000), m * 1000 + rng.randrange(1000)  # same ms
     if c == 3:
         return 0, rng.randrange(0, 3000)
     if c == 4:
-        ms = rng.randrange(0, 10)
-        return ms * 1000 + 999, (ms + 1) * 1000   # adjacent ms
+        m = rng.randrange(0, 10)
+        return m * 1000 + 999, (m + 1) * 1000   # adjacent ms
+    if c == 5:
+        # whole milliseconds (the property's quantifier), given in the nanosecond encoding as well
+        x, y = rng.randrange(0, 30), rng.randrange(0, 30)
+        return (T64 + x * 10 ** 6, T64 + y * 10 ** 6) if rng.random() < 0.5 else (x * 1000, y * 1000)
+    if c == 6:
+        # huge bounds: the u32 edge, 49.7 days, the u64 edge and beyond (saturated by the layer), Duration::MAX
+        big = [ms(2 ** 32 - 1), ms(2 ** 32), ms(2 ** 32 + 1), ms(4294967296 + rng.randrange(1000)),
+               ms(2 ** 63), ms(2 ** 64 - 2), ms(2 ** 64 - 1), DURATION_MAX, T64 + (2 ** 64 - 1) * 10 ** 6 + 999999,
+               ms(2 ** 64), ms(2 ** 64 + 5), ms(2 ** 64 + 10), ms(2 ** 64 + rng.randrange(50)), ms(3 * 2 ** 64 + 7),
+               ms(2 ** 65 + rng.randrange(30))]
+        x = rng.choice(big)
+        y = rng.choice(big + [ms(rng.randrange(50)), x])
+        return (x, y) if rng.random() < 0.5 else (y, x)
     return min(a, b), max(a, b)
+
+
+def rand_req(rng, polls):
+    g = rng.choice([0, 0, 0, 1, 1, 2, 5])
+    mode = 0
+    lat = 0
+    if polls:
+        mode = rng.choice([0, 0, 0, 1, 1, 2])
+        lat = rng.choice([0, 0, 0, 1, 3, 20])
+    return (g, ik(rng.randrange(2), mode, lat), rng.randrange(-50, 1000))
 
 
 def rand_script(rng, nmax=12):
     inj = 1 if rng.random() < 0.75 else 0
+    route = rng.randrange(8) if rng.random() < 0.6 else 0
     eb, lb = rand_rate(rng), rand_rate(rng)
     mn, mx = rand_bounds(rng)
     seed = rng.choice([0, 1, 42, 2 ** 64 - 1, rng.getrandbits(64), rng.getrandbits(64), rng.getrandbits(20)])
     n = rng.randrange(1, nmax + 1)
-    reqs = [(rng.choice([0, 0, 0, 1, 1, 2, 5]), rng.randrange(2), rng.randrange(-50, 1000)) for _ in range(n)]
+    polls = rng.random() < 0.5
+    reqs = [rand_req(rng, polls) for _ in range(n)]
     tail = rng.choice([0, 1, 5, 45, 45, 45])
-    return mk(inj, eb, lb, mn, mx, seed, tail, reqs)
+    return mk(inj | (route << 1), eb, lb, mn, mx, seed, tail, reqs)
+
+
+def long_script(rng):
+    """bounds between 40 ms and 3 s with a tail long enough to see the whole sleep"""
+    lo = rng.randrange(40, 1500)
+    hi = rng.choice([lo, lo + rng.randrange(1, 1500), max(0, lo - rng.randrange(1, 40))])
+    n = rng.randrange(1, 5)
+    reqs = [(rng.choice([0, 1, 7]), ik(rng.randrange(2), rng.choice([0, 0, 1]), rng.choice([0, 0, 5])), rng.randrange(-50, 1000))
+            for _ in range(n)]
+    tail = rng.choice([max(lo, hi) + 10, max(lo, hi) + 10, min(lo, hi) + 1, 30])
+    inj = rng.randrange(2)
+    return mk(inj | (rng.randrange(8) << 1), rng.choice([0, f2b(0.2)]), rng.choice([ONE, f2b(0.8)]),
+              ms(lo), ms(hi), rng.getrandbits(64), tail, reqs)
 
 
 def probe_first_draw(scripts):
     """runs the real driver to learn the first logged draw of each script (None if unavailable)"""
-    import os, subprocess
+    import subprocess
     root = os.path.dirname(os.path.dirname(os.path.abspath(__file__)))
     exe = os.path.join(os.environ.get("VERIF_TARGET_DIR", os.path.join(root, "harness", "target")), "release", DRIVER)
     if not os.path.exists(exe) or not scripts:
@@ -142,8 +237,24 @@ def boundary_scripts(rng, k):
     return out
 
 
+def route_scripts(rng, k):
+    """every builder route x both injector kinds, same configuration and seed: the model ignores the route, so the
+    traces of the eight routes must all equal the model's"""
+    out = []
+    r3 = [(0, 0, 10), (1, ik(1, 1), 11), (0, 0, 12), (2, ik(0, 0, 2), 13)]
+    for _ in range(k):
+        eb, lb = rand_rate(rng), rand_rate(rng)
+        mn, mx = rand_bounds(rng)
+        sd = rng.getrandbits(64)
+        for inj in (0, 1):
+            for route in range(8):
+                out.append(mk(inj | (route << 1), eb, lb, mn, mx, sd, 45, r3))
+    return out
+
+
 def generate(rng, tier):
     out = boundary_scripts(rng, 40 if tier == "quick" else 400)
+    out += route_scripts(rng, 12 if tier == "quick" else 150)
     r2 = [(0, 0, 10), (0, 1, 11), (2, 0, 12)]
     # grid of the special rates (both injector kinds) with a few bounds
     grid = SPECIAL_RATES if tier == "thorough" else SPECIAL_RATES[:9] + [SPECIAL_RATES[12]]
@@ -154,9 +265,19 @@ def generate(rng, tier):
                     if tier == "quick" and (inj == 0 and eb != 0) and mn != 2000:
                         continue
                     out.append(mk(inj, eb, lb, mn, mx, rng.getrandbits(64), 8, r2))
+    for _ in range(30 if tier == "quick" else 600):
+        out.append(long_script(rng))
     n = 1200 if tier == "quick" else 40000
     for _ in range(n):
         out.append(rand_script(rng))
+    return out
+
+
+def extended(rng, mism):
+    """search for a concrete failing input after a correspondence mismatch"""
+    out = boundary_scripts(rng, 100) + route_scripts(rng, 60)
+    out += [long_script(rng) for _ in range(200)]
+    out += [rand_script(rng) for _ in range(8000)]
     return out
 
 
@@ -190,100 +311,137 @@ def clamp01(x):
     return x     # NaN and -0.0 unchanged, as f64::clamp
 
 
+def dur_ns(v):
+    return v * 1000 if v < T64 else v - T64
+
+
+def floor_ms(v):
+    return dur_ns(v) // 10 ** 6
+
+
+def ceil_ms(v):
+    return -((-dur_ns(v)) // 10 ** 6)
+
+
 def monitor(s, t):
-    """independent restatement of C19 over the implementation's trace (Python floats, no Coq decoding)"""
+    """independent restatement of C19 over the implementation's trace (Python floats, no Coq decoding).
+    Only the clauses of the property; both readings of "order of requests" / "start of the injected latency"
+    (call() or first poll) are accepted."""
     d = decode(s, t)
     if d is None:
         return "malformed or panicking run: %s" % t[:12]
     repro, recs, bits = d
-    inj, eb, lb, mn_us, mx_us, seed, tail, n = s[:8]
-    if repro != 1:
-        return "two equally seeded instances driven in lock-step diverged (draw logs or outcomes differ)"
+    flags, eb, lb, mn, mx, seed, tail, n = s[:8]
+    inj = flags & 1
+    # (a) reproducible: two equally seeded instances, same order of requests -> same decisions, latencies, results
+    if repro & 1 != 1:
+        return "two equally seeded instances driven in lock-step diverged (decisions, latencies or outcomes differ)"
     er = clamp01(b2f(eb)) if inj else 0.0
     lr = clamp01(b2f(lb))
-    lo, hi = mn_us // 1000, mx_us // 1000
+    # [min_latency, max_latency] in whole ms; bounds that are not whole ms (outside the quantifier) are widened
+    # to the enclosing whole milliseconds; min > max: either order; the layer expresses a delay in u64 milliseconds, so
+    # the lower bound is read as min(min_latency, u64::MAX ms)
+    lo = min(floor_ms(mn), floor_ms(mx), U64_MAX)
+    hi = max(ceil_ms(mn), ceil_ms(mx))
     t_end = sum(max(0, s[8 + 3 * i]) for i in range(n)) + max(0, tail)
-    pos = 0
+    both_zero = er == 0.0 and lr == 0.0
     t_prev = 0
     for i, r in enumerate(recs):
-        nlog, k0, k1, k2, e_err, e_lat, e_pass, rep, called, t_issue, t_inner, rk, rv, t_done = r
-        kinds = [k for k in (k0, k1, k2) if k != -1]
-        ik, iv = s[8 + 3 * i + 1], s[8 + 3 * i + 2]
-        if t_issue != t_prev + max(0, s[8 + 3 * i]):
-            return "request %d issued at %d" % (i, t_issue)
-        t_prev = t_issue
-        if nlog != len(kinds) or nlog > 3:
-            return "request %d: draw log %s" % (i, r[:4])
-        mine = bits[pos:pos + nlog]
-        pos += nlog
-        if len(mine) != nlog:
-            return "draw log shorter than the per-request counts"
-        if e_err + e_lat + e_pass != 1 or min(e_err, e_lat, e_pass) < 0:
-            return "request %d: exactly one of error/latency/pass must be reported, got %s" % (i, r[4:7])
-        # --- draw discipline and decisions, restated with IEEE doubles ---
-        exp_kinds = []
-        j = 0
-        eroll = 1.0
-        if er > 0.0:
-            exp_kinds.append(0)
-            if kinds[:1] != [0]:
-                return "request %d: error rate > 0 but no error roll drawn first (%s)" % (i, kinds)
-            eroll = b2f(mine[0]); j = 1
-            if not (0.0 <= eroll < 1.0) or eroll * 2.0 ** 53 != int(eroll * 2.0 ** 53):
-                return "error roll outside [0,1) or not a multiple of 2^-53"
-        want_err = bool(inj) and eroll < er
-        if want_err != (e_err == 1):
-            return "request %d: error roll %r vs rate %r but error injected = %d" % (i, eroll, er, e_err)
-        want_lat = False
-        if lr > 0.0 and eroll >= er:
-            exp_kinds.append(1)
-            if kinds[j:j + 1] != [1]:
-                return "request %d: latency roll expected, log kinds %s" % (i, kinds)
-            lroll = b2f(mine[j]); j += 1
-            if not (0.0 <= lroll < 1.0):
-                return "latency roll outside [0,1)"
-            want_lat = lroll < lr
-            if want_lat:
-                exp_kinds.append(2)
-                if kinds[j:j + 1] != [2]:
-                    return "request %d: delay entry expected, log kinds %s" % (i, kinds)
-                dl = mine[j]; j += 1
-                if not (min(lo, hi) <= dl <= max(lo, hi)):
-                    return "request %d: injected latency %d ms outside [%d, %d]" % (i, dl, min(lo, hi), max(lo, hi))
-                if hi <= lo and dl != lo:
-                    return "request %d: max <= min but delay %d != min %d" % (i, dl, lo)
-                if rep != dl:
-                    return "request %d: listener reported %d ms, drawn %d ms" % (i, rep, dl)
-        if kinds != exp_kinds:
-            return "request %d: draws %s, specified %s" % (i, kinds, exp_kinds)
-        if want_lat != (e_lat == 1):
-            return "request %d: latency injected = %d, specified %s" % (i, e_lat, want_lat)
-        # --- clauses of the property ---
-        if e_err:
-            if called != 0 or t_inner != -1:
-                return "request %d: injected error but the inner service was called" % i
-            if (rk, rv, t_done) != (1, i + 7000, t_issue):
-                return "request %d: injected error must complete at once with the error_fn value" % i
-        else:
-            delay = rep if e_lat else 0
-            if e_lat and not (min(lo, hi) <= rep <= max(lo, hi)):
-                return "request %d: latency %d ms outside [%d, %d]" % (i, rep, min(lo, hi), max(lo, hi))
-            if t_issue + delay <= t_end:
-                if called != 1 or t_inner != t_issue + delay:
-                    return "request %d: inner call expected exactly once at %d, got %d call(s) at %d" % (
-                        i, t_issue + delay, called, t_inner)
-                if (rk, rv) != ((0 if ik == 0 else 1), iv) or t_done != t_inner:
-                    return "request %d: inner result (%d,%d) was changed to (%d,%d)" % (i, ik, iv, rk, rv)
-            else:
-                if called != 0 or rk != -1:
-                    return "request %d: still sleeping at the end but inner called / completed" % i
-        if er == 0.0 and lr == 0.0 and not (er != er or lr != lr):
-            if nlog != 0 or e_pass != 1 or called != 1 or t_inner != t_issue:
-                return "request %d: both rates 0 but the layer is not transparent" % i
-        if inj and er >= 1.0 and not e_err:
+        nlog, k0, k1, k2, e_err, e_lat, e_pass, rep, called, t_call, t_poll, t_inner, rk, rv, t_done = r
+        ikf, iv = s[8 + 3 * i + 1], s[8 + 3 * i + 2]
+        kind, mode, ilat = ikf & 1, (ikf >> 1) & 3, max(0, ikf >> 3)
+        if t_call != t_prev + max(0, s[8 + 3 * i]):
+            return "request %d created at %d" % (i, t_call)
+        t_prev = t_call
+        if rk == -2:
+            return "request %d panicked" % i
+        if mode >= 2:
+            if t_poll != -1 or rk != -1:
+                return "request %d was dropped unpolled but has a result" % i
+            continue        # a future that is never polled: the property says nothing about it
+        if t_poll < t_call:
+            return "request %d: first poll at %d before its creation" % (i, t_poll)
+        inb = lambda x: lo <= x <= hi
+        injected = e_err > 0 or (rk == 1 and rv == i + 7000)
+        # (b) an injected error means the wrapped service is not called
+        if injected and called != 0:
+            return "request %d: injected error but the inner service was called" % i
+        # (d) error rate 1: every call fails
+        if inj and er >= 1.0 and rk == 0:
             return "request %d: error rate 1 but the request was not failed" % i
-    if pos != len(bits):
-        return "draw log has %d entries, requests account for %d" % (len(bits), pos)
+        if e_lat > 0 and not inb(rep):
+            return "request %d: injected latency %d ms outside [%d, %d]" % (i, rep, lo, hi)
+        if rk in (0, 1) and not injected:
+            # passed (possibly after an injected latency): the inner service answered this request
+            if called != 1:
+                return "request %d: completed with %d inner calls" % (i, called)
+            if (rk, rv) != (kind, iv):
+                return "request %d: inner result (%d,%d) was changed to (%d,%d)" % (i, kind, iv, rk, rv)
+            # (e) the latency the layer added, measured in virtual time from the first poll or from call()
+            a1, a2 = t_done - ilat - t_poll, t_done - ilat - t_call
+            slept_before_poll = a1 == 0 and lo <= t_poll - t_call
+            if e_lat > 0:
+                ok = inb(a1) or inb(a2) or slept_before_poll
+            else:
+                ok = a1 == 0 or inb(a1) or inb(a2)
+            if not ok:
+                return "request %d: latency %d ms outside [%d, %d]" % (i, a1, lo, hi)
+        elif rk == -1:
+            # not finished when the run ends: only a latency within the bounds (and the inner service's own time) can explain it
+            room = 0 if both_zero else max(hi, 0)
+            if t_poll + room + ilat <= t_end:
+                return "request %d: still pending at %d, polled at %d, max latency %d ms, inner takes %d ms" % (
+                    i, t_end, t_poll, room, ilat)
+            if called > 1:
+                return "request %d: %d inner calls" % (i, called)
+        # (c) both rates 0: transparent
+        if both_zero:
+            if e_err or e_lat or injected:
+                return "request %d: both rates 0 but chaos was injected" % i
+            if called != 1 or t_inner != t_poll:
+                return "request %d: both rates 0 but the layer is not transparent (inner called %d times at %d, polled at %d)" % (
+                    i, called, t_inner, t_poll)
+            if t_poll + ilat <= t_end and ((rk, rv) != (kind, iv) or t_done != t_poll + ilat):
+                return "request %d: both rates 0 but the layer is not transparent" % i
+    return None
+
+
+def poll_order(s):
+    """indices of the requests in the order of their first polls (the harness's discipline)"""
+    order, deferred = [], []
+    for i in range(s[7]):
+        mode = (s[8 + 3 * i + 1] >> 1) & 3
+        if mode == 0:
+            order.append(i)
+            order += deferred[::-1]
+            deferred = []
+        elif mode == 1:
+            deferred.append(i)
+    return order + deferred[::-1]
+
+
+def compare(s, a, b):
+    """correspondence: equal traces, and the assumptions on `rand` hold for every logged draw (a failure here
+    without a monitor failure is reported as no-failing-input-found)"""
+    if a != b:
+        return "traces differ"
+    d = decode(s, a)
+    if d is None:
+        return None
+    _, recs, bits = d
+    lo, hi = min(floor_ms(s[3]), U64_MAX), min(floor_ms(s[4]), U64_MAX)
+    pos = 0
+    for i in poll_order(s):
+        r = recs[i]
+        nlog = r[0]
+        for k, v in zip(r[1:1 + nlog], bits[pos:pos + nlog]):
+            if k in (0, 1):
+                x = b2f(v)
+                if not (0.0 <= x < 1.0) or x * 2.0 ** 53 != int(x * 2.0 ** 53):
+                    return "request %d: roll %r outside [0,1) or not a multiple of 2^-53 (assumption on rand)" % (i, x)
+            elif k == 2 and lo < hi and not (lo <= v <= hi):
+                return "request %d: random_range(%d..=%d) returned %d (assumption on rand)" % (i, lo, hi, v)
+        pos += nlog
     return None
 
 
@@ -306,9 +464,22 @@ def rate_class(b, inj=1):
 
 
 def classify(s, t):
-    out = ["erate_" + rate_class(s[1], s[0]), "lrate_" + rate_class(s[2])]
-    lo, hi = s[3] // 1000, s[4] // 1000
+    out = ["erate_" + rate_class(s[1], s[0] & 1), "lrate_" + rate_class(s[2]), "route_%d" % ((s[0] >> 1) & 7)]
+    lo, hi = floor_ms(s[3]), floor_ms(s[4])
     out.append("range_" + ("lt" if lo < hi else "eq" if lo == hi else "gt"))
+    m = max(lo, hi)
+    out.append("bounds_" + ("le40ms" if m <= 40 else "le3s" if m <= 3000 else "lt2^32ms" if m < 2 ** 32 else
+                            "huge" if m < T64 else "saturated"))
+    if dur_ns(s[3]) % 10 ** 6 or dur_ns(s[4]) % 10 ** 6:
+        out.append("bounds_sub_ms")
+    n = s[7]
+    modes = [(s[8 + 3 * i + 1] >> 1) & 3 for i in range(n)]
+    if any(m == 1 for m in modes):
+        out.append("deferred_first_poll")
+    if any(m >= 2 for m in modes):
+        out.append("dropped_unpolled")
+    if any((s[8 + 3 * i + 1] >> 3) > 0 for i in range(n)):
+        out.append("slow_inner")
     d = decode(s, t)
     if d:
         recs = d[1]
@@ -318,9 +489,11 @@ def classify(s, t):
             out.append("some_latency")
         if any(r[6] for r in recs):
             out.append("some_pass")
-        if any(r[11] == -1 for r in recs):
+        if any(r[12] == -1 and r[10] >= 0 for r in recs):
             out.append("pending_at_end")
-        if any(recs[i][10] > recs[i + 1][9] >= 0 for i in range(len(recs) - 1)):
+        if any(r[5] and r[12] in (0, 1) and r[7] > 40 for r in recs):
+            out.append("latency_gt40ms_observed")
+        if any(recs[i][11] > recs[j][10] >= 0 for i in range(len(recs)) for j in range(i + 1, len(recs))):
             out.append("overlapping_requests")
     return out
 
@@ -334,6 +507,12 @@ def shrink(s):
         if s[8 + 3 * i] > 0:
             c = list(s[:8 + 3 * n]); c[8 + 3 * i] = 0
             yield c
+        if s[8 + 3 * i + 1] > 1:
+            c = list(s[:8 + 3 * n]); c[8 + 3 * i + 1] &= 1
+            yield c
+    if s[0] > 1:
+        c = list(s[:8 + 3 * n]); c[0] &= 1
+        yield c
     if s[6] > 0:
         c = list(s[:8 + 3 * n]); c[6] = s[6] // 2
         yield c
